@@ -327,9 +327,10 @@ def anchor_rule_rule(cfg, R):
     with the dates and SAVE overwritten, so every field that is not overwritten (LETTER above all) is inherited.  The
     function is interpreted (E-SEQ) on policies of two and three rules, in every order, with SAVE 0 and SAVE 1:00 rules
     carrying different letters: the anchor must have SAVE 0 and the letter of a SAVE == 0 rule."""
-    from .aeval import AEval, AObj, Raised
+    from .pyeval import PyEval, PObj, Raised
     from itertools import product
     m = py.load(cfg, 'tools/tzdb/transformer.py')
+    pev = PyEval(cfg, max_steps=20000000)
     R.rule('E', 'the anchor rule is copied from a rule with SAVE == 0 (its LETTER is the standard-time letter)', floor=1)
     f = m.fn('Transformer._get_anchor_rule')
     c = 'tzdb.transformer.Transformer._get_anchor_rule:candidate'
@@ -352,9 +353,10 @@ def anchor_rule_rule(cfg, R):
                                   'atTime': '2:00', 'atTimeSuffix': 'w', 'atSeconds': 7200, 'atSecondsTruncated': 7200,
                                   'deltaOffset': '1:00' if sv else '0', 'deltaSeconds': sv, 'deltaSecondsTruncated': sv,
                                   'letter': 'D' if sv else 'S', 'rawLine': 'Rule P ...', 'used': True})
-                me = AObj({'start_year': 2000, 'until_year': 2050, 'scope': 'extended'}, oid='self', cls='Transformer')
+                me = PObj(m, 'Transformer', {'start_year': 2000, 'until_year': 2050, 'scope': 'extended', 'all_removed_policies': {}, 'all_notable_policies': {},
+                                             'all_removed_zones': {}, 'all_notable_zones': {}})
                 try:
-                    a = AEval(module=m, intrinsics=quiet).call_function('Transformer._get_anchor_rule', [rules], recv=me)
+                    a = pev.call(m, 'Transformer._get_anchor_rule', [rules], recv=me)
                 except Raised as r_:
                     raise AnalysisError('%s: interpretation raised %s' % (f.loc, r_.what))
                 except (KeyError, IndexError, TypeError, AttributeError) as x_:
